@@ -1,6 +1,6 @@
 """C18 configuration for ./check (see checks/propcfg.py for the keys)."""
 CFG = {
-    "modules": ["VaxisModel.Props.C18"],
+    "modules": ["VaxisModel.Props.C18", "VaxisModel.Witness.F118"],
     "extractors": ["C07", "C18"],
     "drivers": ["C18"],
     "stateful": False,
